@@ -82,3 +82,29 @@ Definition stamps (l : list ev) : list Z :=
 (* hypothesis `nowrap` of C05: the values returned by the clock never decrease, i.e. no reduction
    modulo 2^d_clock_bits happened during the run *)
 Definition nowrap (l : list ev) : Prop := StronglySorted Z.le (samples l).
+
+(* ------------------------------------------------------------------ C06 (c): callback protocol *)
+(* la: the most recent answer of is_backend_full before the log.  Every tracer-initiated (flag = 1)
+   open callback entry finds no packet open and the closest preceding answer is "not full"; every
+   tracer-initiated close callback entry finds a packet open *)
+Fixpoint proto (la : option bool) (l : list ev) : Prop :=
+  match l with
+  | [] => True
+  | EAns f :: l => proto (Some f) l
+  | ECb k true o :: l =>
+      (k = 1 -> o = false /\ la = Some false) /\ (k = 2 -> o = true) /\ proto la l
+  | _ :: l => proto la l
+  end.
+(* hypothesis: every event record occupies at least one bit (S13 in DESIGN.md: zero-size records
+   are possible in principle) *)
+Definition pos_records (d : dstm) : Prop :=
+  forall e args a a', In e (d_erts d) -> size_parts (rec_parts d e 0%Z args) a = Some a' -> a < a'.
+
+(* ------------------------------------------------------------------ C07 (b): atomicity *)
+(* equal worlds except for is_tracing_enabled and for the toggle decisions (a_toggle) of the
+   remaining oracle answers *)
+Definition erase_toggle (a : ans) : ans := mk_ans (a_full a) None (a_newbuf a) (a_inc a).
+Definition sim (w w' : world) : Prop :=
+  set_enabled (w_c w) true = set_enabled (w_c w') true /\
+  map erase_toggle (w_or w) = map erase_toggle (w_or w') /\
+  w_clk w = w_clk w' /\ w_log w = w_log w' /\ w_err w = w_err w' /\ w_pcargs w = w_pcargs w'.
